@@ -184,6 +184,30 @@ type c18Shape struct {
 	pred  *ref.Expr
 	pins  []*pin // one per pinning conjunct
 	unsat bool
+	edge  bool // judged over the stores of c18EdgeKeys
+}
+
+// keys around a prefix that ends in the byte 0xff: the first key behind the
+// region of 'a\xff' is 'b', not 'b\xff'
+var c18EdgeKeys = []string{"a", "a\xff", "a\xff1", "a\xff\xff", "b", "ba", "bb"}
+
+func c18EdgeStore(mask int) []store.Pair {
+	var ps []store.Pair
+	for i, k := range c18EdgeKeys {
+		if mask&(1<<i) != 0 {
+			ps = append(ps, store.Pair{K: k, V: c01NumVals[i]})
+		}
+	}
+	return ps
+}
+
+func c18EdgeAtoms() []*ref.Expr {
+	k, s := ref.Key, ref.S
+	return []*ref.Expr{
+		ref.Bin("^=", k(), s("a\xff")), ref.Bin("^=", k(), s("a\xff\xff")), ref.Bin("^=", k(), s("\xff")), ref.Bin("^=", k(), s("a")), ref.Bin("^=", k(), s("b")),
+		ref.Bin("=", k(), s("a\xff")), ref.In(k(), s("a\xff"), s("b")), ref.Bin(">", k(), s("a\xff")), ref.Bin("<=", k(), s("a\xff")), ref.Bin(">=", k(), s("a\xff\xff")),
+		ref.Btw(k(), s("a\xff"), s("b")), ref.Btw(k(), s("a"), s("a\xff")), ref.Btw(k(), s("a\xff"), s("a\xff\xff")),
+	}
 }
 
 var c18ShapesCache []c18Shape
@@ -222,6 +246,18 @@ func c18Shapes() []c18Shape {
 			out = append(out, c18Shape{pred: ref.Bin("and", m.Clone(), u.Clone()), unsat: true})
 		}
 	}
+	ea := c18EdgeAtoms()
+	for _, a := range ea {
+		out = append(out, c18Shape{pred: a, pins: []*pin{pinOf(a)}, edge: true})
+		for _, o := range c18Opaque()[:2] {
+			out = append(out, c18Shape{pred: ref.Bin("&", a.Clone(), o.Clone()), pins: []*pin{pinOf(a)}, edge: true})
+			out = append(out, c18Shape{pred: ref.Bin("and", o.Clone(), a.Clone()), pins: []*pin{pinOf(a)}, edge: true})
+		}
+		for _, b := range ea {
+			pa, pb := pinOf(a), pinOf(b)
+			out = append(out, c18Shape{pred: ref.Bin("&", a.Clone(), b.Clone()), pins: []*pin{pa, pb}, unsat: disjointKeySets(pa, pb), edge: true})
+		}
+	}
 	c18ShapesCache = out
 	return out
 }
@@ -241,6 +277,9 @@ func (c18) RunUnit(t core.Tier, u int, r *core.Reporter) {
 		sh := shapes[i]
 		for mask := 0; mask < 128; mask++ {
 			ps := subsetStore(mask, c01NumVals)
+			if sh.edge {
+				ps = c18EdgeStore(mask)
+			}
 			for _, cfg := range c18Configs {
 				c := predCase{Pred: sh.pred, Store: ps, Mode: cfg.mode, B: cfg.b}
 				if !r.Begin(func() *core.Failure {
